@@ -19,8 +19,9 @@ META = {
             "parser and highlighter models never panic and need no fuel (re-exported from C11/C20); for the list, vector, "
             "string, character and comparison builtins of the Store model, on every well-formed store and every argument "
             "list, the outcome is never `panic` (one lemma per builtin); list walkers terminate within a fuel bound that is a "
-            "function of the heap size on every (also circular) store where that is true, and the negation is proved on a "
-            "circular witness where it is not; rendering an error never panics; after a failed evaluation the machine is "
+            "function of the heap size on every (also circular) store where that is true (list? and, since its repair, the "
+            "prelude's length), and the negation is proved on a circular witness where it is not (equal?; the pinned list? "
+            "and the pinned length); rendering an error never panics; after a failed evaluation the machine is "
             "quiescent (re-exported from C07). The outcome CLASS of every palette call is compared with the model wherever a "
             "model exists (Store, Num); the other builtins are covered by the exploration alone.",
     "note": "Closed theorems (all inputs): T06.1 scan/parse/highlight totality (from C11/C20), T06.2 no-panic lemmas of the "
@@ -33,7 +34,14 @@ META = {
             "err), the store is unchanged and b = #t iff the cdr chain reaches () (inductive ProperList); "
             "isListTH_never_diverges drops the well-formedness hypothesis altogether (a wild reference panics, it does not "
             "hang). Floyd/pigeonhole argument in Lemmas/TotalListP.lean (core Lean only); the driver passes fuel "
-            "4*fuelOf(s)+64 >= 2*|cells|+2. T06.2 now also covers append, the prelude's length, memq memv member assq assv "
+            "4*fuelOf(s)+64 >= 2*|cells|+2. T06.3 for the repaired prelude length (two cursors, accumulator) is closed for EVERY "
+            "store as well: length_total — on every well-formed store, circular or not, and every valid argument, fuel >= "
+            "|cells|+2 gives an exact integer when the cdr chain reaches () (ProperList) and the `expected pair` error when it "
+            "does not (improper list, non-list, circular list): never diverge, never panic (Lemmas/TotalLength.lean, on the "
+            "chain lemmas of TotalListP; `eq?` on two pair cells compares contents in marwood — the proof covers both the "
+            "same-address and the same-contents hit); length_circular_diverges is now a theorem about the PINNED definition "
+            "(Store.Pinned.length), length_circular_self / length_circular_two evaluate the repaired one on the same witness. "
+            "T06.2 now also covers append, the prelude's length, memq memv member assq assv "
             "assoc, and map / for-each for every callee obeying the explicit law CalleeLaw (on every well-formed store and "
             "valid arguments: no panic, and the store handed back is well formed, only grew, result valid) — the law holds "
             "for car cdr cons list append and is closed under map/for-each (calleeLaw_instances); the *_wf theorems show "
@@ -41,8 +49,9 @@ META = {
             "wrapper's zero test keeps every argument list away from the division-by-zero panics of the Num model "
             "(scmQuotient/Remainder/Modulo_noPanic; quotient_by_zero_panics shows the guard is needed). "
             "NOT proved: that the parser model never panics on scanner output (only its termination is; the panic class is "
-            "compared with the real parser by the C11 and text streams); termination of length/memq../map on acyclic lists "
-            "is C14's (fuel > list length), on circular lists it is false (known findings). map/for-each: the law is a "
+            "compared with the real parser by the C11 and text streams); termination of memq../map on acyclic lists "
+            "is C14's (fuel > list length); on circular lists they follow cdr for ever like any R7RS implementation may (outside "
+            "the property's quantifier). map/for-each: the law is a "
             "hypothesis about the callee's store transformer — for a closure callee it is not derived from the VM model. "
             "Carried ONLY by the exploration (no model, no theorem): the numeric procedures outside Num.Arith/Cmp (trig, "
             "sqrt, exp, log, exact->inexact, inexact->exact, number->string, string->number at the VM level, random-*), "
@@ -56,12 +65,19 @@ META = {
             "statement: restore_continuation's split_at_mut (needs the temporal fact that the stack never shrinks below a "
             "captured continuation, which WFS does not record) and the model's fuel guard in apply's list walk (cyclic "
             "argument list: the Rust loop would hang). The tie of WFS to real compiled code is C04's bytecode-verifier "
-            "stream, not repeated here. The Num model has genuine panic branches for division by an exact zero "
-            "that the Scheme-level wrappers guard; those guards are now theorems (scmDivide_noPanic, scmIntOp_noPanic). Known findings (not fixed): length, equal?, display, write on circular data and a circular value as the "
-            "result of an evaluation recurse/loop without bound (stack overflow abort or non-termination); (map f) / "
-            "(for-each f) without a list argument loops forever when f accepts zero arguments. Fixed in this round: "
+            "stream, not repeated here. step_panic_sites_concrete: the same on the concrete machine (concreteOps over the "
+            "C03 heap model) in a CalleeOk state, with CodeLaws discharged (concreteLaws: CInv of the heap + ExtCodeLaws); "
+            "PanicLaws stays a hypothesis there except isLambda_code (concrete_isLambda_code) — vararg_info and the "
+            "slot-index expects of CLOSURE/ENTER environment construction are not consequences of CInv. The Num model has genuine panic branches for division by an exact zero "
+            "that the Scheme-level wrappers guard; those guards are now theorems (scmDivide_noPanic, scmIntOp_noPanic). Known findings (not fixed): equal?, display, write on circular data and a circular value as the "
+            "result of an evaluation recurse/loop without bound (stack overflow abort or non-termination); length of a "
+            "self-containing VECTOR dies while the `expected pair` error copies its payload out of the heap (same unbounded "
+            "Heap::get_as_cell; what is left of the former length finding). Fixed: "
             "7c9bd3f (quoting a procedure/macro/continuation datum through eval panicked), 3d7bbb6 (list? looped on a "
-            "circular list). Calls whose result would exceed the property's allocation bound (make-vector/make-string/expt "
+            "circular list), 08d0569 (length never returned on a cdr-circular list: two cursors, same error as for an "
+            "improper list), 71c917c ((map f) / (for-each f) without a list looped for ever when f accepts zero arguments: "
+            "at least one list is required, the list-less call is an arity error); the former witnesses are must-pass corpus "
+            "cases and map / for-each now have a model class (Store.map / Store.forEach through the C14 callee table). Calls whose result would exceed the property's allocation bound (make-vector/make-string/expt "
             "with arguments beyond 10^6) are not generated; circular data into procedures other than the five named by the "
             "property is sampled in the thorough tier as information only (`xcall`).",
     "technique": "Lean 4 proof (never-panic / termination theorems over the three-valued models, all inputs) + exhaustive/sampled "
@@ -80,6 +96,7 @@ charToInteger_noPanic charPred_noPanic charMap_noPanic eqvB_noPanic equalB_noPan
 isPairB_noPanic scmPlus_noPanic scmTimes_noPanic scmMinus_noPanic scmUnary_noPanic scmExpt_noPanic
 scmCmp_noPanic scmPred_noPanic scmMinMax_noPanic scmDivide_noPanic getListTail_terminates circ_wf
 isListTH_circular_self isListTH_circular_two isList_pinned_diverges length_circular_diverges
+length_circular_self length_circular_two length_total length_never_diverges
 equal_circular_diverges render_never_panics renderPinned_panics failed_eval_quiescent builtins_table_size
 builtins_table_windows builtins_table_windows_modelled
 append_noPanic append_wf cons_wf list_wf length_noPanic memq_noPanic memv_noPanic member_noPanic assq_noPanic
@@ -87,7 +104,7 @@ assv_noPanic assoc_noPanic map_noPanic map_wf forEach_noPanic forEach_wf calleeL
 quotient_noPanic rem_noPanic modulo_noPanic scmIntOp_noPanic scmQuotient_noPanic scmRemainder_noPanic
 scmModulo_noPanic quotient_by_zero_panics
 isListTH_total isListTH_terminates isListTH_never_diverges circ_not_properList
-step_panic_sites step_never_panics""".split()]
+step_panic_sites step_never_panics concrete_isLambda_code step_panic_sites_concrete""".split()]
 
 CIRC = {"circ-cdr", "circ-self", "circ-car", "circ-vec", "circ-vl", "circ-lv"}
 REENTRANT = {"cont", "l-cont"}
@@ -131,7 +148,7 @@ def nontrivial(req, impl):
 
 @predicate("c06-call")
 def p_call(case, m):
-    """match = {names:[…], argc:[…]?, circ:"all"|"any"|"none", impl:[prefixes]}"""
+    """match = {names:[…], argc:[…]?, tokens:[…]? (some argument is one of them), circ:"all"|"any"|"none", impl:[prefixes]}"""
     w = case["request"].split(" ")
     if w[0] != m.get("command", "call") or len(w) < 2:
         return False
@@ -141,6 +158,8 @@ def p_call(case, m):
         return False
     args = w[2:] if w[0] == "call" else w[1:]
     if "argc" in m and len(args) not in m["argc"]:
+        return False
+    if "tokens" in m and not any(a in m["tokens"] for a in args):
         return False
     c = [a in CIRC for a in args]
     want = m.get("circ", "any")
